@@ -257,8 +257,14 @@ def eval_comps(comps, T):
     return total, tol + TINY
 
 
-def comps_bound(comps):
-    return sum(c["amp"] * abs(c["F"]) for c in comps)
+def bound_of(sh):
+    """Upper bound of sum |component values| of a function-backed shadow: amplitude x |factor|
+    for harness functions; functions owned by pyrex (noise, Askaryan) have no known amplitude,
+    so 4 x the largest value currently observed is used for them."""
+    b = sum(c["amp"] * abs(c["F"]) for c in sh.comps if c["mode"] == "local")
+    if any(c["mode"] != "local" for c in sh.comps) and len(sh.values):
+        b += 4 * float(np.max(np.abs(sh.values)))
+    return b
 
 
 # ---------------------------------------------------------------------------
@@ -639,7 +645,7 @@ class World:
             kind, comps = "sampled", []
         tol = 0.0
         if kind == "function":
-            bound = comps_bound(comps)
+            bound = bound_of(a) + bound_of(b)
             tol = (16 * EPS * bound * len(comps) + 1e-12 * bound * sum(c["nflt"] for c in comps)
                    + TINY)
         return Sh(kind, a.times, values, vt, comps), tol
@@ -730,11 +736,16 @@ class World:
         pred = sh.derive(values=self.scale_values(sh, c, div), comps=comps)
         tol = 0.0
         if sh.kind == "function":
-            bound = comps_bound(comps)
+            bound = bound_of(sh) / abs(float(c)) if div else bound_of(sh) * abs(float(c))
             tol = (16 * EPS * bound * (len(comps) + 1)
                    + 1e-12 * bound * sum(k["nflt"] for k in comps) + TINY)
         else:
             pred.kind = "sampled"
+        if any(k["mode"] == "nonlocal" and k["nflt"] for k in comps):
+            # a filtered Askaryan pulse is evaluated over its buffer, where it can be orders of
+            # magnitude larger than inside the window: FFT rounding is not bounded by the
+            # observed values, so only alignment / independence are decided here
+            pred.values = None
         return pred, tol
 
     def op_scale(self, op):
@@ -756,7 +767,8 @@ class World:
             if res is m.obj:
                 self.klass("inplace")
                 t, v, vt = self.observe(m.obj, what)
-                self.compare(v, pred.values, tol, what)
+                if pred.values is not None:
+                    self.compare(v, pred.values, tol, what)
                 if m.sh.kind == "function":
                     self.check_function_values(t, v, pred.comps, what)
                 m.sh.comps = pred.comps
@@ -791,7 +803,9 @@ class World:
             for k in comps:
                 k["t0"] = k["t0"] + d
                 tol += k["lip"] * abs(k["F"]) * 8 * math.ulp(max(float(np.max(np.abs(t))), abs(k["t0"]), 1e-300))
-                tol += (1e-9 if k["mode"] == "opaque" else 16 * EPS) * k["amp"] * abs(k["F"])
+                tol += 16 * EPS * k["amp"] * abs(k["F"])
+            if any(k["mode"] != "local" for k in comps):
+                tol += 1e-9 * bound_of(m.sh)
             if all(k.get("smooth", True) for k in comps):
                 self.compare(v, m.sh.values, tol, what + " [values move with the times]")
             self.check_function_values(t, v, comps, what)
@@ -819,10 +833,11 @@ class World:
             k["F"] = k["F"] * g
             k["nflt"] += 1
         t, v, vt = self.observe(m.obj, what)
-        bound = comps_bound(comps)
-        self.compare(v, pw(operator.mul, m.sh.values, g),
-                     (16 * EPS * len(comps) + 1e-12 * sum(k["nflt"] for k in comps)) * bound
-                     + 1e-9 * bound * any(k["mode"] != "local" for k in comps) + TINY, what)
+        bound = bound_of(m.sh) * abs(g)
+        if all(k["mode"] != "nonlocal" for k in comps):      # see `scaled` for the exception
+            self.compare(v, pw(operator.mul, m.sh.values, g),
+                         (16 * EPS * len(comps) + 1e-12 * sum(k["nflt"] for k in comps)) * bound
+                         + 1e-9 * bound * any(k["mode"] != "local" for k in comps) + TINY, what)
         self.check_function_values(t, v, comps, what)
         m.sh.comps = comps
         self.klass("filtered")
